@@ -381,6 +381,9 @@ CORPUS = [
     ("c", "calc", [("o", "+", N(1, "in"), N(1, "cm"))]),
     ("c", "calc", [("o", "/", ("o", "*", N(1, "px"), N(1, "px")), N(1, "in"))]),
     ("c", "min", [N(1, "in"), N(96, "px"), N("2.54", "cm")]),
+    # a variable may hold a number with a compound unit (never serialized); the use site reports it
+    ("c", "min", [("v", ("c", "calc", [("o", "*", N(10, "turn"), N(-12, "px"))])), N(1, "px")]),
+    ("c", "calc", [("o", "/", ("v", ("c", "calc", [("o", "*", N(10, "px"), N(2, "px"))])), N(4, "px"))]),
 ]
 
 
@@ -448,7 +451,7 @@ def evaluate(ck, pool, trees, envs, label):
     lines, span = [], []
     for (i, t), (_, vts) in zip(cases, srcs):
         span.append((len(lines), len(vts)))
-        lines += ["calc simp now " + tree_enc(v) for v in vts] + ["calc simp now " + tree_enc(t)]
+        lines += ["calc visit now " + tree_enc(v) for v in vts] + ["calc simp now " + tree_enc(t)]
     raw = driver(lines)
     mouts = []
     for off, nv in span:
